@@ -93,6 +93,12 @@ write faults (`o.fsize = none`).  Times are in microseconds, the resolution of t
                         be written leaves no trace, what is in its way and everything below it is untouched --, and there is
                         EXACTLY one error record per entry that cannot be written (mutual induction `session_dtree` /
                         `session_dkids`).  Generalises `error_isolated_session` from the top level to any depth.
+* `copy_onto_anything`
+                     -- the same with NO hypothesis about what the target holds: the classification `classifyTop` of the
+                        sources against the target's file system is total (arrives / replaces a regular file / merged into a
+                        directory / kinds disagree) and always in the domain (`dOk_classify`, for every file system in which
+                        what exists lies in existing directories).  `pdshmodel pcp deep` executes exactly these definitions
+                        against the real run of every conflict and overwrite case.
 * `forward_every_target`, `forward_copy_all_targets`, `forward_target_alone`
                      -- a FORWARD copy to N targets: the product of dsh()'s fan-out LTS (Props/C03, imported) with one
                         receiver per target on that target's own file system (Pcp/FanOut.lean).  In every execution -- any
@@ -110,11 +116,9 @@ write faults (`o.fsize = none`).  Times are in microseconds, the resolution of t
 
 Modelled, not proved: the threads of the real rpdcp receiver are represented by sequential
 processing in an arbitrary order (assumption: the kernel serialises operations per path, and the
-targets' names are distinct, so the threads work on disjoint sub-trees).  `error_isolated_deep` covers entries that
-arrive on fresh names next to entries that cannot be written; the combination "existing regular file REPLACED
-(`copy_onto_existing`) next to an entry of the wrong kind in the same run" is covered by the correspondence only
-(session model `sess`, pinned conflict cases at depth 2 and 3, overwrite cases), and by `error_isolated_open` /
-`copy_with_write_faults` at the byte level.
+targets' names are distinct, so the threads work on disjoint sub-trees).  `copy_onto_anything` is about the client in
+its repaired form and without write faults; kinds other than regular file and directory on the target (symbolic links:
+C12 `escapes_only_through_links`; devices, sockets: not modelled) are outside `FS`.
 A source that cannot be READ: the repaired client (da13fc3) checks every entry with access(2) while it expands the
 sources and ends before the first byte is sent (stated, not modelled: the model's trees are readable; pinned end-to-end
 case `unreadable` as uid 1000 and the four refused-source kinds).
@@ -1239,6 +1243,28 @@ theorem error_isolated_deep (o : Opts) (hc : CntOk o) (hnf : o.fsize = none) (so
     simp
   · exact ⟨fun r hr => hrs.1 r (List.mem_reverse.1 hr), by rw [List.count_reverse]; exact hrs.2.1,
       by rw [List.count_reverse]; exact hrs.2.2⟩
+
+/-- **A copy onto ANYTHING** -- the last clause of C11 with no hypothesis about what the target holds.  `fs` is any
+file system (without symbolic links: Props/C12, Pcp/Links.lean) in which what exists lies in directories that exist
+(`FsClosed`); the sources are in the domain of `copy_roundtrip`; the destination resolves to a directory.  Then the
+dialogue of the repaired client with the receiver runs to its end in step, the file system is `dTopFs` of the sources
+CLASSIFIED against `fs` (`classifyTop`, total: every node of every source tree either arrives, replaces a regular
+file, is merged into a directory, or cannot be written because the kinds disagree), and the replies are
+acknowledgements plus exactly one error record per disagreement.  `dOk_classify`: the classification is always in
+the domain of `error_isolated_deep`. -/
+theorem copy_onto_anything (o : Opts) (hc : CntOk o) (hnf : o.fsize = none) (so : SOpts) (co : COpts)
+    (hco : co.skipRefused = true) (hp : so.preserve = o.preserve) (fs : FS) (hcl : FsClosed fs) (D : Path)
+    (srcs : List (Str × Tree)) (budget : Nat) (hres : resolve fs o.cwd o.dest = some D) (hdir : fs.isDir D = true)
+    (hb : o.dest.length + budget < PCP_PATH_MAX) (hsrc : SrcsOk so srcs)
+    (hgood : GoodKids budget (namedSrcs so srcs)) :
+    (sessionEnd so co o fs srcs).fs = dTopFs o so fs D (classifyTop so fs D srcs) ∧
+    (∃ rs, (sessionEnd so co o fs srcs).out.reverse = .ack :: rs ∧
+      RsI rs 0 (dTopBad (classifyTop so fs D srcs))) ∧
+    (sessionEnd so co o fs srcs).phase = .done := by
+  have h := error_isolated_deep o hc hnf so co hco hp fs D (classifyTop so fs D srcs) budget hres hdir hb
+    (dTopOk_classify so hcl budget D srcs hsrc hgood)
+  rw [classifyTop_srcs] at h
+  exact h
 
 /-- `/w/d/t` is already there and holds a DIRECTORY `x` (with a file `x/k` in it) and a regular FILE `y`; the user
 copies `t`, which holds a new file `e`, a regular file `x` and a directory `y` with a file `y/z` -/
